@@ -6,7 +6,7 @@ import numpy as np
 import translate_hc
 from common import LEAN, REPO, R, Ro, Cxo, fl
 
-LEAN_MODULES = ["PyomaVerif.Props.C09", "PyomaVerif.Mutants.C09", "PyomaVerif.Props.C09C18", "PyomaVerif.Props.C09All"]
+LEAN_MODULES = ["PyomaVerif.Props.C09", "PyomaVerif.Mutants.C09", "PyomaVerif.Props.C09C18", "PyomaVerif.Props.C09All", "PyomaVerif.Props.C09Stored"]
 THEOREMS = [
     # C09 for all six classes as ONE theorem over the list (program, required fields, which flags exist)
     "PV.C09All.C09_seq_all",
@@ -50,6 +50,25 @@ THEOREMS = [
     "PV.C09.applymask_cell",
     "PV.Mutants.C09.old_SSIdat_fails",
     "PV.Mutants.C09.swapped_thresholds_fail",
+    # depth round (audit C09 gaps 2, 3 / C01 gap 1): neutral limits = identity, a passing pole survives, HC_conj instantiated, cexec step = HcFn.*
+    "PV.C09Stored.C09_neutral_identity",
+    "PV.C09Stored.C09_neutral_identity_table",
+    "PV.C09Stored.C09_kept_survives",
+    "PV.C09Stored.C09_raw_survives",
+    "PV.C09Stored.C09_conj_present",
+    "PV.C09Stored.C09_maskO_applymask",
+    "PV.C09Stored.C09_cexec_hcDamp",
+    "PV.C09Stored.C09_cexec_hcCov",
+    "PV.C09Stored.C09_cexec_hcConj",
+    "PV.C09Stored.exN_neutral",
+    "PV.Stored.kept_neutral_iff",
+    "PV.Stored.stored_tables",
+    "PV.HcFn.cellAt_applymask",
+    "PV.HcFn.cellAt_hcDamp",
+    "PV.HcFn.cellAt_hcCov",
+    "PV.HcFn.cellAt_hcConj",
+    "PV.HcFn.conjGrid_iff",
+    "PV.HcFn.conjGrid_cellAt",
 ]
 RULE = (
     "translator: the hard-criteria statements of the six run() bodies are regenerated into Lean on every run and the "
